@@ -7,7 +7,7 @@ Definition e_person (p : person) : sexp :=
      e_list e_str (p_last p); e_list e_str (p_lineage p); e_list e_str (bibtex_first_names p)].
 
 (* 1: Person(string)   2: Person(string, first, middle, prelast, last, lineage)   3: str(Person(string))
-   4: split_tex_string(s)   5: split_tex_string(s, ',')
+   4: split_tex_string(s)   5: split_tex_string(s, ',')   6: letter class of a code point (Model/NamesUni.v)
    (the person is sent as its five lists + bibtex_first_names) *)
 Definition dispatch (fn : Z) (a : sexp) : sexp :=
   match fn with
@@ -18,6 +18,7 @@ Definition dispatch (fn : Z) (a : sexp) : sexp :=
   | 3%Z => e_res e_str (do pr <- person_of_string (d_str (d_nth a 0)); Ok (person_str (fst pr)))
   | 4%Z => e_res (e_list e_str) (split_tex_space (d_str (d_nth a 0)))
   | 5%Z => e_res (e_list e_str) (split_tex_comma (d_str (d_nth a 0)))
+  | 6%Z => e_N (uni_class (d_N (d_nth a 0)))
   | _ => L []
   end.
 
